@@ -266,7 +266,7 @@ func (a *aggregate) add(sp *spec, r *runResult) {
 	for _, h := range r.StateList {
 		a.states[h] = struct{}{}
 	}
-	for _, k := range []string{"Crashes", "Restarts", "Partitions", "Heals", "ClockJumps", "Stalls", "CrashAtOp", "CrashNow", "DiskErrors", "StopStarts", "Redeliveries", "LostUnsyncedFiles", "RestartFailures", "MembershipCalls"} {
+	for _, k := range []string{"Crashes", "Restarts", "Partitions", "Heals", "ClockJumps", "Stalls", "CrashAtOp", "CrashNow", "DiskErrors", "StopStarts", "Redeliveries", "LinkFlaps", "LostUnsyncedFiles", "RestartFailures", "MembershipCalls"} {
 		if v := num(r.Stats, k); v != 0 {
 			a.faults[k] += v
 		}
@@ -278,7 +278,7 @@ func (a *aggregate) add(sp *spec, r *runResult) {
 			a.faults["crash:"+k] += v
 		}
 	}
-	for _, k := range []string{"DroppedReq", "DroppedReply", "Duplicated", "Redelivered", "BlockedReq", "BlockedReply", "PeerDown", "HeavyTail", "Sent", "Delivered"} {
+	for _, k := range []string{"LossyDropped", "DroppedReq", "DroppedReply", "Duplicated", "Redelivered", "BlockedReq", "BlockedReply", "PeerDown", "HeavyTail", "Sent", "Delivered"} {
 		if v := num(r.Net, k); v != 0 {
 			a.faults["net:"+k] += v
 		}
